@@ -108,6 +108,18 @@ let run (line : string) : unit =
               Printf.printf "specapply legal=%d render=%s H=%s record=%s\n" (b01 (legal p m))
                 (us (string_of_text (render q))) (hex_of_n ~width:16 (h q))
                 (hex_of_string (string_of_text (record_entry p m))))
+  | "specline" ->
+      (* specline m1 m2 ... | fen : is the line playable move by move? *)
+      let (mvs, fen) = split_bar rest in
+      with_pos cmd fen (fun p ->
+          let toks = List.filter (fun x -> x <> "") (String.split_on_char ' ' mvs) in
+          let rec go p i = function
+            | [] -> Printf.printf "specline ok n=%d\n" i
+            | t :: rest ->
+                (match parse_move (scalars_of_string t) with
+                 | Some m when legal p m -> go (apply p m) (i + 1) rest
+                 | _ -> Printf.printf "specline bad at=%d move=%s\n" i t) in
+          go p 0 toks)
   | "specmirror" ->
       with_pos cmd rest (fun p ->
           let mb = mirror_board p.p_board in
